@@ -25,6 +25,8 @@ enum Pending {
     /// waiting on a condvar (cv, mutex): disabled until notified
     CvWait(u64, u64),
     Notify(u64),
+    /// harness-level gate: enabled once the gate has been opened
+    Gate(u64),
     Finished,
 }
 
@@ -66,6 +68,7 @@ struct Inner {
     touched: HashMap<u64, u32>,
     /// every announced operation of this execution, in order: (thread, object)
     oplog: Vec<(u8, u64)>,
+    open_gates: BTreeSet<u64>,
     /// conflict-directed pruning of alternatives (see explore_subtree)
     prune: bool,
     /// candidate objects (touched by >= 2 threads in some execution so far); None = every object
@@ -105,6 +108,7 @@ pub fn sched() -> &'static Sched {
                 abort: None,
                 touched: HashMap::new(),
                 oplog: vec![],
+                open_gates: BTreeSet::new(),
                 prune: true,
                 shared: Some(BTreeSet::new()),
                 grew: false,
@@ -123,6 +127,7 @@ impl Inner {
             Pending::Lock(o) => self.locks.get(&o).map(|l| l.owner.is_none()).unwrap_or(true),
             Pending::Read(o) => self.locks.get(&o).map(|l| l.writer.is_none()).unwrap_or(true),
             Pending::Write(o) => self.locks.get(&o).map(|l| l.writer.is_none() && l.readers == 0).unwrap_or(true),
+            Pending::Gate(g) => self.open_gates.contains(&g),
             Pending::CvWait(..) | Pending::Finished => false,
         }
     }
@@ -280,6 +285,18 @@ impl Sched {
         s
     }
 
+    /// Blocks the calling controlled thread until `gate_open(id)` has been called. A wait at a
+    /// closed gate is a forced switch (it costs no preemption), which lets a scenario park a
+    /// thread inside a window without spending the preemption budget on it.
+    pub fn gate_wait(&self, id: u64) {
+        self.point(Pending::Gate(id));
+    }
+
+    pub fn gate_open(&self, id: u64) {
+        let mut g = self.inner.lock().unwrap_or_else(|e| e.into_inner());
+        g.open_gates.insert(id);
+    }
+
     /// logical time, for call/return stamps
     pub fn now(&self) -> u64 {
         self.inner.lock().unwrap_or_else(|e| e.into_inner()).step
@@ -433,6 +450,7 @@ pub fn run_execution(prefix: &[usize], bodies: Vec<Box<dyn FnOnce() + Send>>) ->
         g.abort = None;
         g.touched.clear();
         g.oplog.clear();
+        g.open_gates.clear();
         g.grew = false;
     }
     let panics: std::sync::Arc<Mutex<Vec<(usize, String)>>> = Default::default();
